@@ -5,3 +5,4 @@ import MC.Props.C11
 import MC.Props.C13
 import MC.Props.C19
 import MC.Props.C20
+import MC.Props.C07
